@@ -1,8 +1,8 @@
 SPECIFICATION Spec
 CONSTANTS
-  Alphabet = {32, 38, 46, 65, 68, 69, 78, 95, 97, 98, 101, 103, 105, 110, 233, 12288}
-  N = 4
-  Prefixes <- PrefixesNone
+  Alphabet = {10, 32, 34, 46, 49, 59, 64, 100, 101, 104, 110}
+  N = 3
+  Prefixes <- PrefixesCtx
 INVARIANTS Lossless OneEofLast NonEmptyNonBlankStart Emit
 PROPERTIES Progress
 CHECK_DEADLOCK FALSE
